@@ -383,6 +383,26 @@ def callable_env(forest, mod, interp, extra_env=None):
                 if v.mod not in foreign:
                     foreign[v.mod] = callable_env(forest, v.mod, interp)
                 genv[k] = FuncVal(v.node, foreign[v.mod], interp)
+    def deep(v, depth=0):
+        # functions referenced from module-level tuples / lists / dicts (dispatch tables) become callable, too
+        if isinstance(v, FuncRef) and isinstance(v.node, ast.FunctionDef):
+            if v.mod == mod:
+                return FuncVal(v.node, genv, interp)
+            if v.mod not in foreign:
+                foreign[v.mod] = callable_env(forest, v.mod, interp)
+            return FuncVal(v.node, foreign[v.mod], interp)
+        if depth < 3 and isinstance(v, tuple) and any(isinstance(x, (FuncRef, tuple, list, dict)) for x in v):
+            return tuple(deep(x, depth + 1) for x in v)
+        if depth < 3 and isinstance(v, list) and any(isinstance(x, (FuncRef, tuple, list, dict)) for x in v):
+            return [deep(x, depth + 1) for x in v]
+        if depth < 3 and isinstance(v, dict) and any(isinstance(x, (FuncRef, tuple, list, dict)) for x in v.values()):
+            return {k: deep(x, depth + 1) for k, x in v.items()}
+        return v
+    for k, v in list(genv.items()):
+        if isinstance(v, (tuple, list, dict)):
+            nv = deep(v)
+            if nv is not v:
+                genv[k] = nv
     if extra_env:
         genv.update(extra_env)
     return genv
